@@ -89,6 +89,9 @@ def exactlen_table(ctx, rule):
     for r in X["rows"]:
         o = r["o"]
         if r["kind"] in ("diverge",):
+            if not cons_zone(o).feasible():
+                ctx.ok(rule, "a panicking path (assertion) is infeasible: its condition contradicts the path's own relations", nontrivial=False)
+                continue
             ctx.violation(rule, rule + "|panic-path", "a path of the length-checking stream's poll ends in a panic", where=None)
             continue
         if r["kind"] != "return":
